@@ -21,6 +21,8 @@ from pyvc.values import AbsObj, Arr, Obj, Opaque, PDict, PList, SV, mk, sym, to_
 
 OPS = ("add", "add_shared", "update", "remove", "reopen", "add_nan", "add_text", "update_text", "remove_hole_ws", "remove_hole_parent", "copy_group", "group_data", "idle_session",
        "add_iv", "update_iv", "copy_other_edit", "add_note", "remove_note", "group_comment", "group_comment_remove", "rename", "list_registries")
+# operations added later draw from their own random stream, so that the histories sampled above stay the same
+OPS_LATER = ("remove_pg",)
 
 
 def _file_tiling(path):
@@ -106,6 +108,7 @@ def run_history(case):
         group_data = {}
         group_plain = {}
         removed = {}
+        removed_pgs = {}
         table_seen = [False]
         other = [None]  # a second workspace holding a copy of the group, kept open
         others = []
@@ -152,6 +155,23 @@ def run_history(case):
                         return f"{where}: {hname}.get_data('{gone}') still returns the removed data"
                     if any(getattr(c, "name", None) == gone for c in hole[0].children):
                         return f"{where}: {hname} still holds the removed data '{gone}' among its children"
+                # the child list and the list of property groups agree (a group emptied by removals is in neither),
+                # and every member of a listed group is a live child
+                kids_pg = {c.uid for c in hole[0].children if type(c).__name__.endswith("PropertyGroup")}
+                listed_pg = {x.uid for x in (hole[0].property_groups or [])}
+                if kids_pg != listed_pg:
+                    return f"{where}: {hname} holds {len(kids_pg)} property groups among its children but lists {len(listed_pg)} property groups"
+                kid_ids = {getattr(c, "uid", None) for c in hole[0].children}
+                for x in hole[0].property_groups or []:
+                    if not x.properties:
+                        return f"{where}: {hname} lists the empty property group '{x.name}'"
+                    if [u for u in x.properties if u not in kid_ids]:
+                        return f"{where}: the property group '{x.name}' of {hname} lists data that are not children of the hole"
+                for uid in removed_pgs.get(hname, ()):
+                    if any(getattr(c, "uid", None) == uid for c in hole[0].children):
+                        return f"{where}: {hname} still holds a removed property group among its children"
+                    if any(getattr(x, "uid", None) == uid for x in (hole[0].property_groups or [])):
+                        return f"{where}: {hname} still lists a removed property group"
             # the group-wide table view of the interval table 'assays' lists exactly the per-hole values, in hole order
             in_table = [hn for hn in sorted(model) if any(k.endswith("_iv") for k in model[hn])]
             if in_table or table_seen[0]:
@@ -231,6 +251,25 @@ def run_history(case):
                     hole.remove_children(hole.get_data(name)[0])
                 del model[hname][name]
                 removed.setdefault(hname, set()).add(name)
+            elif op == "remove_pg":
+                # the property group of a data set goes (with the data it lists -- a depth table and its columns go together),
+                # through the workspace or through the hole
+                if name not in model[hname]:
+                    continue
+                pg = hole.get_data(name)[0].property_group
+                if pg is None:
+                    continue
+                gone = [hole.get_data(u)[0].name for u in (pg.properties or [])]
+                removed_pgs.setdefault(hname, set()).add(pg.uid)
+                if step % 2:
+                    hole.remove_children([pg])
+                else:
+                    ws.remove_entity(pg)
+                del pg
+                for dn in gone:
+                    if dn in model[hname]:
+                        del model[hname][dn]
+                        removed.setdefault(hname, set()).add(dn)
             elif op == "rename":
                 # a stored data set gets another name: its values (filed under the name) must follow
                 if name in model[hname] and (name + "_renamed") not in model[hname]:
@@ -431,7 +470,7 @@ class ConcatHistories(Contract):
     has_native = True
     native_shards = 4
     props = ("C04",)
-    bounded_scope = "2 or 3 holes x data names {Au, Cu}; operation sequences of length <= 4 (quick: 60 seeded + 42 fixed; thorough: 600) over add / add-with-NaN / remove a whole hole (through the workspace or the group, also straight after a re-open) / copy the group inside the workspace / data stored on the group itself / values attached to a hole as a whole, added and removed in sessions that do nothing else / an idle open-list-close session (file digests unchanged) / interval data in a property group with the group-wide table view compared after every step / a copy into a second workspace edited there / add-text (each text longer than all earlier ones) / update / update-text / remove / re-open; both format versions; per-hole read-back after every step, raw file tiling after every close"
+    bounded_scope = "2 or 3 holes x data names {Au, Cu}; operation sequences of length <= 4 (quick: 60 seeded + 42 fixed; thorough: 600) over add / add-with-NaN / remove a whole hole (through the workspace or the group, also straight after a re-open) / copy the group inside the workspace / data stored on the group itself / values attached to a hole as a whole, added and removed in sessions that do nothing else / an idle open-list-close session (file digests unchanged) / interval data in a property group with the group-wide table view compared after every step / a copy into a second workspace edited there / add-text (each text longer than all earlier ones) / update / update-text / remove / re-open / removal of a property group with the data it lists (through the workspace or the hole; 20 fixed + 20 seeded histories of their own random stream, thorough: 300); both format versions; per-hole read-back after every step, raw file tiling after every close"
 
     FIXED = [
         [("add", 0, "Au"), ("add", 1, "Au"), ("remove", 0, "Au"), ("reopen", 0, "")],
@@ -490,6 +529,26 @@ class ConcatHistories(Contract):
             holes = 2 if k % 3 else 3
             ops = [(rng.choice(OPS), rng.randint(0, holes - 1), rng.choice(["Au", "Cu"])) for _ in range(n + (holes - 2) * 2)]
             yield {"holes": holes, "ops": ops, "version": rng.choice([2.0, 2.1]), "check_each_step": rng.random() < 0.5}
+        import random
+
+        rng2 = random.Random(20261005)
+        PG = [
+            [("add", 0, "Au"), ("add", 0, "Cu"), ("add", 1, "Au"), ("remove_pg", 0, "Au"), ("reopen", 0, "")],
+            [("add", 0, "Au"), ("add", 1, "Au"), ("reopen", 0, ""), ("remove_pg", 1, "Au"), ("add", 1, "Cu"), ("reopen", 0, "")],
+            [("add", 0, "Au"), ("add_iv", 0, "Cu"), ("add", 1, "Au"), ("add_iv", 1, "Cu"), ("remove_pg", 0, "Cu_iv"), ("reopen", 0, ""), ("remove_pg", 1, "Au"), ("reopen", 0, "")],
+            [("add", 0, "Au"), ("add", 1, "Au"), ("remove", 0, "Au"), ("add", 0, "Cu"), ("remove_pg", 0, "Cu"), ("add", 0, "Au"), ("reopen", 0, "")],
+            [("add_text", 0, "Au"), ("add", 0, "Au"), ("add", 1, "Au"), ("reopen", 0, ""), ("remove_pg", 0, "Au"), ("update", 1, "Au"), ("reopen", 0, "")],
+        ]
+        for version in (2.0, 2.1):
+            for ops in PG:
+                # the step parity picks the entry point: each sequence runs as written and shifted by one step
+                for shift in ([], [("list_registries", 0, "")]):
+                    yield {"holes": 2, "ops": shift + ops, "version": version, "check_each_step": True}
+        for k in range(20 if tier == "quick" else 300):
+            n = rng2.randint(3, 6)
+            holes = 2 if k % 3 else 3
+            ops = [(rng2.choice(OPS + OPS_LATER * 4), rng2.randint(0, holes - 1), rng2.choice(["Au", "Cu"])) for _ in range(n + (holes - 2) * 2)]
+            yield {"holes": holes, "ops": ops, "version": rng2.choice([2.0, 2.1]), "check_each_step": rng2.random() < 0.5}
 
     def native_check(self, case):
         case = dict(case)
